@@ -270,6 +270,7 @@ ROUND8 = {
 ROUND9 = {
     "C01": "(P18) the explicit panic sites of lexer / parser / syntax configuration are a reviewed table; (P19) the size hint every engine iterator reports is backed by memory or clamped (one known finding); (P20) every windows / chunks / step_by size is provably non-zero.",
     "C02": "(S4c) every site that turns the text of a finished capture into a value has a safe-marking alternative.",
+    "C05": "(B11) operand-stack balance of the code generator: every statement kind leaves the interpreter's operand stack at the depth it found it (symbolic depth walk over all generator paths), expression helpers net +1, and the per-instruction effects are re-derived from the interpreter's handlers.",
     "C04": "(K11) in the interpreter's arithmetic / membership arms the value pushed is the result of the shared operator function only.",
     "C06": "(I11) the template-name expressions of include / import / from-import / extends are visited by the assignment tracker (slice of C18.W1).",
     "C07": "(V14) a filter that sorts and then groups neighbours uses one comparator with the same flags for both.",
